@@ -2,6 +2,9 @@ import Model.Store.Spec
 import Lemmas.StoreReplay
 import Lemmas.StorePit
 import Lemmas.StoreMeta
+import Model.Store.Project
+import Model.Store.Search
+import Lemmas.StoreSqlSmallScope
 /-! C04 — what the read API reports is the replay of the log   (**PARTIAL**: see `checks/c04.py` META).
 
 Stage 1 (this part of the file): the laws of `Store.replay`, the independent fold the property speaks about.  They hold
@@ -342,5 +345,114 @@ example : ((findTx (replay exLogs "l1") 0).map (fun r => (r.reverted.isSome, txM
 example : acctMeta (replay exLogs "l1") "alice" = [] ∧ acctMeta ((replay exLogs "l1").asOf 135) "alice" = [("tier", "silver")] := by decide
 example : Interleave (exLogs.filter (fun x => x.ledger == "l1")) (exLogs.filter (fun x => x.ledger != "l1")) exLogs := by
   repeat (first | exact .nil | apply Interleave.left | apply Interleave.right)
+
+-- ================================================================ STAGE 2 (model level only; PARTIAL)
+/-! Everything below is about `Generated/Schema.lean`: the PL/pgSQL functions and triggers of `0-init-schema.sql` as
+translated on THIS run by `extract/plpgsql` into applications of the combinators of `Model/Store/Sql.lean` (trusted reading
+of PostgreSQL).  Nothing here was executed by PostgreSQL.  `StoreSql.project` inserts the log entries one by one into `logs`
+and lets the generated trigger chain (`handle_log` → `insert_transaction` → `insert_posting` → `insert_move`, `upsert_account`,
+the four history triggers, …) fill the tables; `StoreSql.discrepancies` compares them with `Store.replay` clause by clause:
+(i) latest move by `seq` = running volumes, (ii) latest move by `(effective_date, seq)` dated `≤ d` = effective volumes at `d`,
+(iii) metadata and its revisions, (iv) `reverted_at`, and `frameBad` is (v): rows of other ledgers untouched, step by step. -/
+open StoreSql Sql Schema
+
+/-- the statement one would like (**NOT a theorem**: `projection_refines_replay_fails` refutes it) -/
+def ProjectionRefinesReplay : Prop := ∀ logs : List CLog, discrepancies logs = [] ∧ frameBad logs = []
+
+/-- DESIGN §6 #24: alice receives 10 dated 100, then 5 dated 50 (a transaction dated before every existing move) -/
+def wBackdated : List CLog := [
+  ⟨"l", 0, 100, "", .newTx ⟨0, [⟨"world", "alice", "USD", 10⟩], [], 100, ""⟩ []⟩,
+  ⟨"l", 1, 110, "", .newTx ⟨1, [⟨"world", "alice", "USD", 5⟩], [], 50, ""⟩ []⟩ ]
+
+/-- a posting from an account that does not exist yet to itself (e.g. the first transaction of a ledger sends world → world) -/
+def wSelf : List CLog := [ ⟨"l", 0, 100, "", .newTx ⟨0, [⟨"world", "world", "USD", 10⟩], [], 100, ""⟩ []⟩ ]
+
+set_option maxRecDepth 100000 in
+/-- **clause (ii) fails** on `wBackdated`: the move that `get_all_account_effective_volumes` picks for alice/USD at effective
+date 50 carries NULL volumes (`null + 5`), where the replay says input 5, output 0; at date 100 the figures are right. -/
+theorem projection_effective_volumes_null :
+    Val.isNullB (col (lastEffectiveMove (project wBackdated) "l" "alice" "USD" 50) (fun r => r.post_commit_effective_volumes)) = true ∧
+    input (replay wBackdated "l") (When.effectiveBy 50) "alice" "USD" = 5 ∧
+    (col (lastEffectiveMove (project wBackdated) "l" "alice" "USD" 100) (fun r => r.post_commit_effective_volumes) == volPair 15 0) = true ∧
+    (discrepancies wBackdated).map (fun d => (d.cls, d.account)) = [("effective-volumes-null", "world"), ("effective-volumes-null", "alice")] := by
+  decide
+
+set_option maxRecDepth 100000 in
+/-- **clause (i) fails** on `wSelf`: `insert_posting` computes `_source_exists` and `_destination_exists` before it creates the
+account, so the destination move starts again from (0, 0): the latest move of world/USD says input 10, output 0 — the tables
+report a balance of +10 and inputs ≠ outputs, where the replay says 10 / 10. -/
+theorem projection_self_posting_breaks_volumes :
+    (col (lastMove (project wSelf) "l" "world" "USD") (fun r => r.post_commit_volumes) == volPair 10 0) = true ∧
+    (input (replay wSelf "l") When.always "world" "USD", output (replay wSelf "l") When.always "world" "USD") = (10, 10) ∧
+    (discrepancies wSelf).map (fun d => d.cls) = ["volumes", "effective-volumes"] := by
+  decide
+
+theorem projection_refines_replay_fails : ¬ ProjectionRefinesReplay := by
+  intro h
+  have h1 := (h wSelf).1
+  have h2 := projection_self_posting_breaks_volumes.2.2
+  rw [h1] at h2
+  cases h2
+
+/-- DESIGN §6 #25: a transaction at instant 1000 written with offset +02:00 (7 200 000 000 µs) -/
+def wZoned : List (CLog × Int) := [ (⟨"l", 0, 2000, "", .newTx ⟨0, [⟨"world", "alice", "USD", 1⟩], [], 1000, ""⟩ []⟩, 7200000000) ]
+
+set_option maxRecDepth 100000 in
+/-- the projection files the transaction under its wall-clock time, two hours after its instant: `timestamp`, and the
+`effective_date` of its moves -/
+theorem projection_timestamp_offset_dropped :
+    ((txRows (projectO wZoned) "l").map (fun r => r.timestamp == Val.ts 7200001000)) = [true] ∧
+    ((moveRows (projectO wZoned) "l").map (fun r => r.effective_date == Val.ts 7200001000)) = [true, true] ∧
+    (discrepanciesO wZoned).map (fun d => d.cls) = ["effective-volumes-null", "effective-volumes-null", "transaction-timestamp"] := by
+  decide
+
+/-- a bucket of two ledgers with back- and future-dated transactions, a self-posting on an existing account, a revert,
+account metadata written by a script, metadata set / delete on accounts and on a transaction — none of the two shapes -/
+def exLogs2 : List CLog := [
+  ⟨"l1", 0, 100, "k0", .newTx ⟨0, [⟨"world", "alice", "USD", 1180591620717411303424⟩], [("t", "a")], 50, "r0"⟩ [("alice", [("tier", "gold")]), ("carol", [("x", "y")])]⟩,
+  ⟨"l2", 0, 101, "", .newTx ⟨0, [⟨"world", "alice", "USD", 7⟩], [], 300, ""⟩ []⟩,
+  ⟨"l1", 1, 110, "", .newTx ⟨1, [⟨"alice", "bob", "USD", 30⟩, ⟨"alice", "alice", "USD", 5⟩], [], 60, ""⟩ []⟩,
+  ⟨"l1", 2, 120, "", .revert 1 ⟨2, [⟨"alice", "alice", "USD", 5⟩, ⟨"bob", "alice", "USD", 30⟩], [("reverts", "1")], 120, ""⟩⟩,
+  ⟨"l1", 3, 130, "", .setMeta (.account "alice") [("tier", "silver")]⟩,
+  ⟨"l2", 1, 131, "", .setMeta (.account "alice") [("tier", "bronze")]⟩,
+  ⟨"l1", 4, 140, "", .delMeta (.account "alice") "tier"⟩,
+  ⟨"l1", 5, 150, "", .setMeta (.transaction 0) [("t", "b")]⟩,
+  ⟨"l1", 6, 160, "", .delMeta (.transaction 0) "t"⟩,
+  ⟨"l1", 7, 170, "", .newTx ⟨3, [⟨"bob", "alice", "USD", 1⟩], [], 65, ""⟩ []⟩ ]
+
+set_option maxRecDepth 1000000 in
+/-- `projection_refines_replay`, **partial — one concrete history**: on `exLogs2` the generated projection agrees with the
+replay on every clause (i)–(v) (non-vacuity of the comparison: the tables are not empty) -/
+theorem projection_refines_replay_partial_example :
+    discrepancies exLogs2 = [] ∧ frameBad exLogs2 = [] ∧
+    ((project exLogs2).moves.length, (project exLogs2).transactions_metadata.length, (project exLogs2).accounts_metadata.length) = (14, 13, 9) := by
+  decide +kernel
+
+/-- `projection_refines_replay`, **partial — exhaustive small scope, checked by the kernel** (`Lemmas/StoreSqlSmallScope.lean`
+holds the evaluation so that it is cached on its own): for EVERY history of one or two entries over the alphabet of
+`Model/Store/Search.lean` (316 histories: sends a→b, b→a, a→a dated before / at / after everything, script metadata, reverts,
+metadata set and delete on an account and a transaction, a second ledger), the generated projection differs from the replay
+ONLY at an (account, asset) that has one of the two shapes (`projection_self_posting_breaks_volumes`,
+`projection_effective_volumes_null`), and never touches another ledger's rows.
+What is missing for the full theorem: an induction over arbitrary log sequences through the generated definitions
+(the executable comparison of the check covers longer histories by sampling and by enumeration to depth 3 / 4). -/
+theorem projection_refines_replay_partial_small_scope : (Search.histories 2).all smallScopeOk = true :=
+  StoreSql.smallScope_depth2
+
+/-- DESIGN §6 #22 (latent: the Go read API never passes `_before`, and never calls `aggregate_ledger_volumes`):
+`get_account_balance(…, _before)` picks the latest move BY SEQ among those with `effective_date <= _before` and reads the
+insertion-ordered running totals — neither the balance by effective date nor the balance as of an instant. -/
+def wBefore : List CLog := [
+  ⟨"l", 0, 100, "", .newTx ⟨0, [⟨"world", "alice", "USD", 10⟩], [], 100, ""⟩ []⟩,
+  ⟨"l", 1, 110, "", .newTx ⟨1, [⟨"world", "alice", "USD", 5⟩], [], 200, ""⟩ []⟩,
+  ⟨"l", 2, 120, "", .newTx ⟨2, [⟨"world", "alice", "USD", 1⟩], [], 150, ""⟩ []⟩ ]
+
+set_option maxRecDepth 100000 in
+theorem get_account_balance_before_witness :
+    (getAccountBalance (project wBefore) "l" "alice" "USD" (some 150) == Val.int 16) = true ∧
+    balance (replay wBefore "l") (When.effectiveBy 150) "alice" "USD" = 11 ∧
+    (getAccountBalance (project wBefore) "l" "alice" "USD" none == Val.int 16) = true ∧
+    balance (replay wBefore "l") When.always "alice" "USD" = 16 := by
+  decide
 
 end C04
